@@ -229,6 +229,9 @@ class ManifestContext:
             segment_duration=1000,
             timescale=1000)
         timing = DashTiming(self.now, timing_ref, self.options)
+        if timing.firstAvailableTime.total_seconds() < 0:
+            # the presentation has not started yet: there is no Period to list
+            return
         oldest_frag = timing.availabilityStartTime + timing.firstAvailableTime
         num_loops = int(timing.firstAvailableTime.total_seconds() //
                         duration.total_seconds())
